@@ -5,6 +5,7 @@ import QrlModel.Model.Address
 import QrlModel.Model.Hex
 import QrlModel.Model.XmssKey
 import QrlModel.Model.Dilithium
+import QrlModel.Model.Ctor
 import QrlModel.Model.BdsLabel
 import QrlModel.Spec.XmssRef
 /-! Line-protocol driver: one operation per input line, one canonical result line per operation.
@@ -206,6 +207,10 @@ def step (st : DState) (line : String) : DState × String :=
     let sd := unhex seed
     let kp := Dil.keypair shake128 shake256 (shake256 sd 32)
     ({ st with dkeys := putK st.dkeys id (kp, sd) }, s!"ok pk={hx kp.pk} sk={hx kp.sk}")
+  | ["dl.newhex", hs] =>
+    (st, showO (fun (kp : Dil.KeyPair) => s!"pk={hx kp.pk} sk={hx kp.sk}") (Dil.fromHexSeed shake128 shake256 (unhex hs)))
+  | ["dl.newmn", m] =>
+    (st, showO (fun (kp : Dil.KeyPair) => s!"pk={hx kp.pk} sk={hx kp.sk}") (Dil.fromMnemonic shake128 shake256 (unhex m)))
   | ["dl.sign", id, m] =>
     match lookupK st.dkeys id with
     | none => (st, "bad-op")
